@@ -177,27 +177,10 @@ def check(ctx):
     ctx.floor("R4", "plain sleep sites", n_plain, 10)
 
     # ---- R5 active iff any on ------------------------------------------------------------------------
-    f = repo.own_method("GeckoAsyncFacade", "_on_config_device_change")
-    gf = cfg_of(f)
-    sc = calls_named(gf, "set_config_mode")
-    ctx.ob("R5", f"{f.qual}::one-switch", len(sc) == 1 and gf.pdom(sc[0][0], gf.entry), f"{f.qual} does not call set_config_mode exactly once on every path", f.loc)
-    if len(sc) == 1:
-        flag = ast.unparse(sc[0][1].args[0])
-        defs = [n for n in gf.stmt_nodes() if isinstance(n.ast, ast.Assign) and ast.unparse(n.ast.targets[0]) == flag]
-        init = [n for n in defs if repo.try_fold(n.ast.value) is False]
-        sets = [n for n in defs if repo.try_fold(n.ast.value) is True]
-        ok = len(init) == 1 and len(sets) == 1 and len(defs) == 2 and gf.dom(init[0], sc[0][0])
-        if ok:
-            lp = gf.loop_of(sets[0])
-            ok = lp is not None and lp.kind == "for" and ast.unparse(lp.ast.iter) == "self.all_config_change_devices"
-            facts = gf.guard_atoms(sets[0], entry=lp, cut_back=True) if ok else set()
-            ok = ok and (f"{ast.unparse(lp.ast.target)}.is_on", True) in facts and len([x for x in gf.guards(sets[0], entry=lp, cut_back=True) if x[0] is not lp]) == 1
-            ok = ok and init[0] not in gf.loop_body(lp)
-        ctx.ob("R5", f"{f.qual}::active-iff-any-on", ok, f"{f.qual}: the mode flag is not (False, then True exactly under device.is_on for some device of all_config_change_devices)", f.loc,
-               sample={"rule": "R5", "flag": flag})
-    acd = repo.own_method("GeckoAsyncFacade", "all_config_change_devices")
-    rets = [ast.unparse(n.value) for n in ast.walk(acd.node) if isinstance(n, ast.Return)]
-    ctx.ob("R5", "all_config_change_devices::pumps-and-blowers", rets in (["self._pumps + self._blowers"], ["self._blowers + self._pumps"]), f"all_config_change_devices is {rets}, expected pumps + blowers", acd.loc)
+    # decision by interpretation (vlib/facademodel.py): for every on/off valuation of pumps and blowers (lights do
+    # not count) exactly one set_config_mode(any pump or blower on)
+    from ..facademodel import mode_decision
+    mode_decision(ctx, repo, "R5")
     ini = repo.own_method("GeckoAsyncFacade", "__init__")
     gi = cfg_of(ini)
     ok = False
